@@ -29,6 +29,7 @@ def build(pc, E, canary=None):
     pc.add_functions(E, TARGETS)
     if canary is not None:
         return
+    bounded_serving(pc, E)
     pc.assumptions += ['A-np: posixpath.normpath leaves ".." only as a leading run; joining a root with a relative path '
                        'without ".." components stays inside the root; isfile never raises (bounded stand-in not built)',
                        'A-os: any filesystem call may raise OSError/ValueError; no symlinks',
@@ -54,3 +55,32 @@ def fallback(pc):
     for call in ('read', 'getsize', 'getmtime', 'seek'):
         cases.append({'script': 'static_case.py', 'case': {'requests': REQS, 'fault': {'call': call}}})
     return cases
+
+
+def bounded_serving(pc, E):
+    """bounded stand-in (labelled bounded): real files served through a real application -- bytes, Content-Length,
+    confinement for the request catalogue, and conditional requests (If-Modified-Since equal to the served
+    Last-Modified is a 304 without body, for mtimes with fractional seconds); the datetime arithmetic of
+    get_file_mtime / http_date is a dependency the contracts treat as opaque"""
+    import json
+    import os
+    from pyvc.run import native, HERE
+    case = {'requests': REQS, 'fault': None, 'revalidate': True}
+    try:
+        out = native('static_case.py', case, repo_root=E.repo.root)
+    except Exception as e:
+        pc.errors.append('bounded stand-in (static serving) crashed: %r' % (e,))
+        return
+    if out.get('harness_error'):
+        pc.errors.append('bounded stand-in (static serving): %s' % out['harness_error'][-300:])
+    pc.bounded.append({'what': 'real files through StaticApplication: request catalogue (bytes, length, confinement) and '
+                               'revalidation with the served Last-Modified for mtime fractions .0/.25/.5/.75',
+                       'bound': '%d requests + 4 revalidations' % len(REQS), 'cases': len(REQS) + 4,
+                       'failures': 1 if out.get('fails') else 0, 'label': 'bounded'})
+    if out.get('fails'):
+        fn = 'replays/C14-bounded-serving.json'
+        os.makedirs(os.path.join(HERE, 'replays'), exist_ok=True)
+        with open(os.path.join(HERE, fn), 'w') as f:
+            json.dump({'property': 'C14', 'obligation': 'C14.B/static-serving (bounded stand-in)',
+                       'concretised_input': {'script': 'static_case.py', 'case': case}, 'native_observation': out}, f, indent=1)
+        pc.violations.append(('C14.B/static-serving', fn, True))
